@@ -6,6 +6,7 @@ package main
 // zip-vs-list / zip-vs-dir ("the three ways of checking agree" on an accepted archive).
 
 import (
+	"bytes"
 	"fmt"
 	"os"
 	"path/filepath"
@@ -251,6 +252,56 @@ func c15EscapeExt(c *Cfg, r *Rng) {
 	}
 }
 
+// c15OrderPredicate: the verdict of CheckFiles must not depend on the order of the list
+// (the property: the ways of checking reject the same files; a list is a set of files).  The
+// list is checked again reversed: acceptance must be the same and, when accepted, the valid
+// SET must be the same.  Known finding checkfiles-dup-path-order: two non-directory entries
+// with the same path of which one is a symlink / irregular file (reported "omitted" after it
+// entered the collision map): the error of the other entry is dropped by addError's per-path
+// de-duplication when the omitted one comes first.  Any other disagreement is reported as
+// checkfiles-order.
+func c15OrderPredicate(c *Cfg, fsz []c15File, cf modzip.CheckedFiles, words []string) {
+	if len(fsz) < 2 {
+		return
+	}
+	rev := make([]c15File, len(fsz))
+	for i, f := range fsz {
+		rev[len(fsz)-1-i] = f
+	}
+	rcf, _ := modzip.CheckFiles(rev, c15FIO{})
+	set := func(v []string) string {
+		x := append([]string{}, v...)
+		sort.Strings(x)
+		return strings.Join(x, "\x00")
+	}
+	errA, errB := cf.Err() != nil, rcf.Err() != nil
+	same := errA == errB && (errA || set(cf.Valid) == set(rcf.Valid))
+	class := "checkfiles-order"
+	cnt := map[string]int{}
+	irr := map[string]bool{}
+	for _, f := range fsz {
+		if f.kind == 'd' {
+			continue
+		}
+		cnt[f.path]++
+		if f.kind == 'l' || f.kind == 'o' {
+			irr[f.path] = true
+		}
+	}
+	dup := false
+	for p, n := range cnt {
+		if n >= 2 {
+			dup = true
+			if irr[p] {
+				class = "checkfiles-dup-path-order"
+			}
+		}
+	}
+	c.Direct(same, class, "CheckFiles gives a different verdict / valid set for the same files in reverse order",
+		map[string]any{"files": words, "err": errA, "err_reversed": errB, "valid": cf.Valid, "valid_reversed": rcf.Valid})
+	c.Count(fmt.Sprintf("order/dup-paths=%v same=%v", dup, same))
+}
+
 // c15WitnessDupOrder replays the witness of C15_checkFiles_perm_false on the implementation:
 // with two entries of the same path the verdict of CheckFiles depends on their order (both
 // orders are also compared with the model by the checkfiles ops).
@@ -261,4 +312,37 @@ func c15WitnessDupOrder(c *Cfg) {
 	a := c15CheckFilesOps(c, []c15File{mod, pipe, reg})
 	b := c15CheckFilesOps(c, []c15File{mod, reg, pipe})
 	c.Count(fmt.Sprintf("dup-order/witness: pipe-first err=%v, regular-first err=%v", a.Err() != nil, b.Err() != nil))
+	// the same through Create: the archive is written and the regular file b is not in it
+	var buf bytes.Buffer
+	cerr := modzip.Create(&buf, c15Mod, []c15File{mod, pipe, reg}, c15FIO{})
+	c.Direct(cerr != nil, "checkfiles-dup-path-order", "Create accepted a list with two entries for path b and silently dropped the regular file",
+		[]string{c15FEntWord(mod), c15FEntWord(pipe), c15FEntWord(reg)})
+}
+
+// c15JoinCases: filepath.Join(dir, name) as Unzip calls it, against the byte-level model
+// (fpjoin), and the theorem C15_confined_bytes on the implementation: for a clean absolute dir
+// and an accepted name the join is literally dir + "/" + name.
+func c15JoinCases(c *Cfg, r *Rng) {
+	if c.Focus {
+		return
+	}
+	dirs := []string{"/T", "/a/b", "/tmp/x y/é", "/", "", "rel/x", "/a/../b", "/a/", "/a//b", ".", "..", "/a/./b", "/.."}
+	n := c.Pick(3000, 40000)
+	for i := 0; i < n; i++ {
+		dir := Pick(r, dirs)
+		name := c15Path(r, r.Intn(4))
+		got := filepath.Join(dir, name)
+		c.Op("I", "fpjoin "+H(dir)+" "+H(name), H(got))
+		accepted := module.CheckFilePath(name) == nil
+		cleanAbs := strings.HasPrefix(dir, "/") && dir != "/" && filepath.Clean(dir) == dir
+		if accepted && cleanAbs {
+			c.Direct(got == dir+"/"+name, "join-not-literal", "filepath.Join(dir, name) of an accepted name is not dir + \"/\" + name", []string{dir, name})
+		}
+		c.Count(fmt.Sprintf("join/accepted=%v clean-abs-dir=%v changed-by-clean=%v", accepted, cleanAbs, got != dir+"/"+name))
+	}
+	// the witness of C15_no_trailing_space_false on the implementation (an observation)
+	for _, w := range []string{".. ", "a ", "CON .txt", "x/.. /y"} {
+		c.Count(fmt.Sprintf("join/trailing-space %q accepted=%v", w, module.CheckFilePath(w) == nil))
+		c15PathOps(c, w)
+	}
 }
